@@ -45,6 +45,11 @@ def _body(spec: dict, path: str) -> Any:
         STATE["point"](path)
     total = 0
     kids = spec.get("kids") or []
+    if spec.get("pre_sleep"):
+        # the body works for a while (virtual time) before it calls its sub-tasks
+        from vf import env
+
+        env.CLOCK.sleep(spec["pre_sleep"])
     if kids:
         if spec.get("call", "single") == "single":
             for i, kid in enumerate(kids):
